@@ -7,6 +7,7 @@ from fractions import Fraction as F
 from lib.core import *
 from lib import gen_ls as g
 from lib import gen_net as gn
+from lib.exact_verdict import XJudge
 from props import c01
 
 ID = "C02"
@@ -60,7 +61,8 @@ LEVEL_NOTE = ("The per-solver premises are now FULL theorems of the solver model
               "proportional to conditioning' is tested (1e-8 x scale on generator-bounded conditioning), not proved.")
 TECHNIQUE = "Lean 4 proof (uniqueness of the regularised least-squares solution; structural induction on the removal recursion) + differential runs"
 TRUSTED = ["scripted solver in harness/c02_netdecision.cpp replaces LocalNetwork::least_squares (test double, real LocalNetwork code)",
-           "XML/text readers of gama-local output in tools/props/c02.py"]
+           "XML/text readers of gama-local output in tools/props/c02.py",
+           "tools/lib/exact_verdict.py + gen_ls.reference: decide ls cases whose x / q_xx answers miss the fixed 1e-9 comparison on a demonstrably ill-conditioned problem (both sides against the exact solution; capped, counted)"]
 MODELLED = ["IEEE rounding", "project_equations/linearisation (abstract 'world' function in NetDecision)",
             "printing of results (compared at the level of the XML documents)"]
 ASSUMPTIONS = ["rank numerically unambiguous (generators keep pivots 0 or O(1); networks on jittered grids)"]
@@ -153,6 +155,18 @@ def ls_cases(ctx, nprob, quota=None):
                     cases.append(lines)
             groups.append({"p": p, "pi": pi, "S": S, "ok": ok, "qs": qs, "idx": idx, "proper": len(S) < n})
     return groups, cases
+
+
+def judged_positions(qs, off=2):
+    """output indexes of the answers an exact-reference verdict may excuse (tools/lib/exact_verdict.py): the FIRST `x`
+    answer and every `qxx i j` answer of the query list (answers start at out[off])"""
+    x_at = tuple(off + k for k, q in enumerate(qs) if q == "x")[:1]
+    qxx_at = {}
+    for k, q in enumerate(qs):
+        t = q.split()
+        if len(t) == 3 and t[0] == "qxx":
+            qxx_at[off + k] = (int(t[1]), int(t[2]))
+    return x_at, qxx_at
 
 
 def _nums(line):
@@ -356,12 +370,14 @@ def ls_corpus(ctx, corr, exe, with_model=True):
         alg = c[k].split()[1]
         out = impl[i]
         if model is not None:
-            for a, b in zip(out, model[i]):
-                if b == "not-modelled" or (not ok and a != b and b.startswith("throw")):
-                    continue
-                if not lines_equal(a, b, rtol=1e-9, atol=1e-9):
-                    corr.disagree("ls-corpus", c, out, model[i], f.name)
-                    break
+            miss = [j for j, (a, b) in enumerate(zip(out, model[i]))
+                    if not (b == "not-modelled" or (not ok and a != b and b.startswith("throw")))
+                    and not lines_equal(a, b, rtol=1e-9, atol=1e-9)]
+            if miss:
+                x_at, qxx_at = judged_positions(c[k + 1:])
+                okj, why = XJudge(corr, "ls_corpus_x").misses(p, S, out, model[i], miss, x_at=x_at, qxx_at=qxx_at, resolving=ok)
+                if not okj:
+                    corr.disagree("ls-corpus", c, out, model[i], f.name + (": " + why if why else ""))
         bad = []
         qs = c[k + 1:]
         if ok and qs[:4] == ["x", "r", "rtr", "defect"]:
@@ -403,6 +419,7 @@ def check_ls(ctx, corr, nprob, with_model=True, quota=None):
                 corr.count("ls_chol_gs_cases_offid")
     invps = env_orderings(exe, groups, cases)
     seen_p = set()
+    judge = XJudge(corr, "ls_x")
     for gi, grp in enumerate(groups):
         p = grp["p"]
         n, nq = p["n"], len(grp["qs"])
@@ -419,7 +436,7 @@ def check_ls(ctx, corr, nprob, with_model=True, quota=None):
                 continue
             outs[(alg, entry)] = impl[ci]
             if model is not None:
-                nm = False
+                nm, miss = False, []
                 for k, (a, b) in enumerate(zip(impl[ci], model[ci])):
                     if b == "not-modelled":
                         nm = True
@@ -430,11 +447,17 @@ def check_ls(ctx, corr, nprob, with_model=True, quota=None):
                         nm = True
                         continue
                     if not lines_equal(a, b, rtol=1e-9, atol=1e-9):
-                        corr.disagree("ls", c, impl[ci], model[ci], f"{alg}/{entry}")
-                        break
-                else:
-                    if len(impl[ci]) != len(model[ci]):
-                        corr.disagree("ls", c, impl[ci], model[ci], "length")
+                        miss.append(k)
+                if miss:
+                    # a miss only in x / q_xx answers of a resolving subset: wrong, or rounding on an ill-conditioned
+                    # problem?  decided against the EXACT solution / cofactors (tools/lib/exact_verdict.py); anything
+                    # else is a disagreement as before
+                    x_at, qxx_at = judged_positions(grp["qs"])
+                    okj, why = judge.misses(p, grp["S"], impl[ci], model[ci], miss, x_at=x_at, qxx_at=qxx_at, resolving=grp["ok"])
+                    if not okj:
+                        corr.disagree("ls", c, impl[ci], model[ci], f"{alg}/{entry}" + (": " + why if why else ""))
+                elif len(impl[ci]) != len(model[ci]):
+                    corr.disagree("ls", c, impl[ci], model[ci], "length")
                 corr.count("ls_not_modelled" if nm else "ls_modelled")
         corr.count("ls_groups")
         corr.count("ls_singular" if p["defect"] else "ls_regular")
@@ -498,6 +521,7 @@ def check_ls(ctx, corr, nprob, with_model=True, quota=None):
             allops = [cases[ci] for ci, a, e in grp["idx"]]
             corr.fail(what, {"stream": "ls", "ops": ops, "group": allops, "subset": grp["S"], "resolves": grp["ok"]}, site,
                       " | ".join(outs.get((alg, "solver"), outs.get((alg, "adj"), []))[:8]))
+    judge.finish(len(cases))
     tot = corr.stats.get("ls_groups", 0)
     if tot and corr.stats.get("ls_singular", 0) < 0.25 * tot:
         corr.inconclusive.append("fewer than 25% singular problems (solver level)")
